@@ -170,8 +170,33 @@ def check_search_history_free(res, facts):
     n = 0
     own = {Q + '::convert', Q + '::is_allowed'}
 
-    def cached_syms(p):
-        return sorted({a[1] for a in all_atoms(p) if a[0] == 'sym' and (a[1].startswith('cached.') or a[1].startswith('self.cached_conversion'))})
+    def is_cached(nm):
+        return isinstance(nm, str) and (nm.startswith('cached.') or nm.startswith('self.cached_conversion'))
+
+    def cached_syms(p, ctx=None):
+        names = {a[1] for a in all_atoms(p) if a[0] == 'sym'}
+        out_ = {nm for nm in names if is_cached(nm)}
+        if ctx is not None:
+            # results of unknown callees carry the symbols their arguments mentioned
+            for nm in names:
+                for pre, d in ctx.sym_deps.items():
+                    if isinstance(nm, str) and nm.startswith(pre):
+                        out_ |= {x for x in d if is_cached(x)}
+        return sorted(out_)
+
+    def fact_syms(f, ctx):
+        acc = []
+        k = f.k
+        if k[0] == 'sym':
+            for pre, d in ctx.sym_deps.items():
+                if isinstance(k[1], str) and k[1].startswith(pre):
+                    acc += [x for x in d if is_cached(x)]
+        for x in k[1:]:
+            if isinstance(x, Poly):
+                acc += cached_syms(x, ctx)
+            elif isinstance(x, B):
+                acc += fact_syms(x, ctx)
+        return sorted(set(acc))
     for o in sem_iter(outs):
         if o.status != 'returned' or not isinstance(o.ret, StructV):
             continue
@@ -182,7 +207,7 @@ def check_search_history_free(res, facts):
             continue
         n += 1
         note = cc1.get('note_num')
-        bad = cached_syms(note.term) if isinstance(note, Num) else ['?']
+        bad = cached_syms(note.term, o.ctx) if isinstance(note, Num) else ['?']
         dep = []
         search_fns = _callees_closure(facts, run.fn_path) if run.fn_path else None
         for f, org in o.ctx.origins.items():
@@ -190,11 +215,9 @@ def check_search_history_free(res, facts):
                 continue
             if search_fns is not None and org not in search_fns:
                 continue    # a guard evaluated before the search (the window test, wherever it was factored out to)
-            polys = [x for x in f.k[1:] if isinstance(x, Poly)]
-            for pp in polys:
-                cs = cached_syms(pp)
-                if cs:
-                    dep.append('%s in %s' % (cs, org.split('::')[-1]))
+            cs = fact_syms(f, o.ctx)
+            if cs:
+                dep.append('%s in %s' % (cs, org.split('::')[-1]))
         res.ob('R-HYST', 'search outside the window is history-free (path %d)' % n, not bad and not dep,
                'new note depends on the previous conversion: value symbols %s; branches %s' % (bad, sorted(set(dep))[:4]), where, key='R-HYST:search-history-free:%d' % n)
     res.floor('history_free_paths', n, 4)
